@@ -559,3 +559,53 @@ func TestVerif_C03_Store(t *testing.T) {
 		}, "store", "store/"+kind, "store/forgery-"+arrival)
 	})
 }
+
+// every event type number that the protocol does not define, carried by an envelope whose payload and signature are
+// genuine for some defined type: refused at the gate, whatever the number
+func TestVerif_C03_UnknownTypeNumbers(t *testing.T) {
+	acct := vacct.Get("C03")
+	known := map[int32]bool{}
+	for n := range protocoltypes.EventType_name {
+		known[n] = true
+	}
+	vacct.RapidCheck(t, vacct.N(1, 40), func(rt *rapid.T) {
+		k := c03NewKeys()
+		numbers := []int32{-1 << 31, -65536, -1000, 1<<31 - 1, 1 << 20, 65536, 65537, 4096}
+		for n := int32(-8); n <= 2200; n++ {
+			numbers = append(numbers, n)
+		}
+		tried := 0
+		for _, et := range c03Types() {
+			honest, payload, _, _ := c03Build(rt, k, et)
+			if _, _, err := openGroupEnvelope(k.g, honest); err != nil {
+				continue
+			}
+			meta := &protocoltypes.GroupMetadata{}
+			{
+				// the genuine signature of this payload
+				m, _, err := openGroupEnvelope(k.g, honest)
+				if err != nil {
+					rt.Fatalf("harness: %v", err)
+				}
+				meta = m
+			}
+			for _, n := range numbers {
+				if known[n] && n != 0 {
+					continue
+				}
+				tried++
+				env := c03Seal(k.g, protocoltypes.EventType(n), payload, meta.Sig)
+				if _, _, err := openGroupEnvelope(k.g, env); err == nil {
+					acct.Violation("forgery-accepted/unknown-type-number", "TestVerif_C03_UnknownTypeNumbers", map[string]any{"type_number": n, "payload_and_signature_of": et.String()})
+					rt.Fatalf("C03 forgery-accepted/unknown-type-number: an envelope with the undefined event type number %d (payload and signature genuine for %v) passed the gate", n, et)
+				}
+			}
+			acct.Case(true, fmt.Sprintf("unknown-numbers|%v", et), func() any {
+				return map[string]any{"kind": "unknown-type-numbers", "payload_and_signature_of": et.String(), "numbers": len(numbers)}
+			}, "unknown-type-sweep")
+		}
+		if tried == 0 {
+			rt.Fatalf("harness: nothing tried")
+		}
+	})
+}
